@@ -442,7 +442,9 @@ func (r *run) release(rq *request, d Decision) {
 				if old && corr == "receipt" { // nothing in a pre-0.13.2 block commits to the receipts
 					corr = "timestamp"
 				}
-				if old && corr == "diff" { // ... nor to the state diff: verification cannot see it
+				// ... nor to the state diff: verification cannot see it. (The revert loop never verifies; to it
+				// the copy is what it is: a corrupted block with the honest hash and parent hash.)
+				if old && corr == "diff" && int(rq.h) >= len(r.shadow) {
 					d.R, corr = "fg", forgery
 				}
 			case "fg":
